@@ -65,6 +65,7 @@ def main(argv=None):
             print("REPLAY: no violation (status %s)" % res.status)
             return 0
         cfgs = spec.families(tier)
+        explore.DEFAULT_CAP = 300000 if tier == "quick" else 6000000
         tot = explore.explore(spec, cfgs, seed=seed, account=getattr(spec, "account", True))
         return evidence.conclude(spec, cfgs, tot, tier, seed, t0)
     except env.HarnessError as e:
